@@ -138,3 +138,8 @@ From VGen Require Import Tables.
 From VProofs Require Import TieC18.
 Theorem c18_tie_port_tests : forall p, Forall (fun b => b = negb (port_ok p)) (src_port_invalid_all p).
 Proof. exact tie_port_tests. Qed.
+(* the address family asked of the resolver and the sort direction for -46 / -64 are the expressions of the current SSH_Socket._resolve (T1c translation) *)
+Theorem c18_tie_resolve_family : forall pref, gai_family pref = src_resolve_family pref.
+Proof. exact tie_resolve_family. Qed.
+Theorem c18_tie_resolve_reverse : forall a b, (a =? 6) = src_resolve_reverse [a; b].
+Proof. exact tie_resolve_reverse. Qed.
